@@ -19,6 +19,9 @@ Init == /\ tid \in 1..Len(Traces)
 \* first failing clause, or "-" when the event satisfies the contract
 Judge(tr, e) ==
   LET hasFocus == tr.kind = "focus"
+      \* SimpleListWalker: a plain monitored list plus a position that is re-clamped after every call; what a ListBox sees
+      \* of it (get_focus) is None exactly when the list is empty, else in range: the same position, else the last item
+      isClamp == tr.kind = "clamp"
       op == e.op
       isSet == op.n = "setfocus"
       n == Len(items)
@@ -38,6 +41,11 @@ Judge(tr, e) ==
       ELSE IF hasFocus /\ e.focus # NoFocus /\ (e.focus < 0 \/ e.focus >= Len(e.items)) THEN "focus_in_range"
       ELSE IF hasFocus /\ r.err = "" /\ focus # NoFocus /\ e.focus # want
               /\ ~(op.n = "sort" /\ e.focus # NoFocus /\ e.items[e.focus + 1] = items[focus + 1]) THEN "focus_follows_item"
+      ELSE IF isClamp /\ r.err # "" /\ e.focus # focus THEN "unchanged_on_error"
+      ELSE IF isClamp /\ ((e.focus = NoFocus) # (e.items = <<>>)) THEN "focus_none_iff_empty"
+      ELSE IF isClamp /\ e.focus # NoFocus /\ (e.focus < 0 \/ e.focus >= Len(e.items)) THEN "focus_in_range"
+      ELSE IF isClamp /\ r.err = "" /\ nl > 0 /\ e.focus # (IF isSet THEN op.a ELSE IF focus = NoFocus THEN 0 ELSE IF focus < nl THEN focus ELSE nl - 1)
+           THEN "walker_keeps_position_else_last_item"
       ELSE IF r.err # "" /\ e.mod # 0 THEN "modified_never_on_failure"
       ELSE IF r.err = "" /\ r.items # items /\ e.mod # 1 THEN "modified_once_on_change"
       ELSE IF e.mod > 1 THEN "modified_at_most_once"
